@@ -2385,9 +2385,14 @@ def run_sim(run, props=None, source=None):
 
 def generate_and_run(seed, prop, props=None, clean=True, phased=False):
     """Draw a configuration and a step list from *seed* while executing it."""
-    from .gen import Gen, PhasedGen
-    g = (PhasedGen if phased else Gen)(seed, prop, clean)
-    run = {"prop": prop, "seed": seed, "clean": clean, "config": g.make_config(), "steps": []}
+    from .gen import Gen, PhasedGen, ScaleGen, BigGen
+    if phased == "huge":
+        g = ScaleGen(seed, prop, clean, index=seed)
+    elif phased == "big":
+        g = BigGen(seed, prop, clean)
+    else:
+        g = (PhasedGen if phased else Gen)(seed, prop, clean)
+    run = {"prop": prop, "seed": seed, "clean": clean, "config": g.make_config(), "steps": [], "max_handles": 400000, "idle_cap": 200000}
     sim = Sim(run, props)
     sim.execute(g.next_step)
     return sim
